@@ -241,6 +241,22 @@ def parse_total(s):
         if bad:
             return bad
     try:
+        # results of separate calls are independent: editing one does not show up in the next
+        q1, _d1 = parser._split_keyvals(s)
+        before = [(k, list(v)) for k, v in q1.items()]
+        q1["__edited__"] = ["x"]
+        for k in list(q1.keys()):
+            if isinstance(q1[k], list):
+                q1[k].append("y")
+        q2, _d2 = parser._split_keyvals(s)
+        if [(k, list(v)) for k, v in q2.items()] != before:
+            return Failure("parsing %r again after the first result was edited gives %r, first time %r"
+                           % (s, [(k, list(v)) for k, v in q2.items()], before), sig={"kind": "shared-parse-result"})
+    except Exception as e:  # noqa
+        fl = core.raised_failure(e, "_split_keyvals(%r) twice" % s)
+        fl.sig["kind"] = "parse-raised"
+        return fl
+    try:
         f = feature_from_line("c\t.\tt\t1\t2\t.\t+\t.\t" + s)
         items = list(f.attributes.items())
         dd = infer_dialect(s)
@@ -251,6 +267,10 @@ def parse_total(s):
     for k, v in items:
         if not isinstance(v, list) or not all(isinstance(i, str) for i in v):
             return Failure("feature_from_line attr %r -> %r" % (k, v), sig={"kind": "types"})
+    f.attributes["__edited__"] = ["x"]
+    g = feature_from_line("c\t.\tt\t1\t2\t.\t+\t.\t" + s)
+    if "__edited__" in g.attributes and "__edited__" not in dict(items):
+        return Failure("a second feature parsed from %r carries an attribute added to the first" % s, sig={"kind": "shared-parse-result"})
     if not isinstance(dd, dict):
         return Failure("infer_dialect(%r) = %r" % (s, dd), sig={"kind": "shape"})
     return None
